@@ -285,6 +285,16 @@ func (db *DB) AcquireHaltLock(ctx context.Context, lockID int64) (_ *HaltLock, r
 // This is a marker error and should not be propagated to the client.
 var errHaltLockAlreadyAcquired = errors.New("litefs: halt lock already acquired")
 
+// HasHaltLock returns true if the halt lock with the given identifier is
+// currently granted on this database and has not expired.
+func (db *DB) HasHaltLock(id int64) bool {
+	curr := db.haltLockAndGuard.Load().(*haltLockAndGuard)
+	if curr == nil || curr.haltLock.ID != id {
+		return false
+	}
+	return curr.haltLock.Expires == nil || curr.haltLock.Expires.After(time.Now())
+}
+
 // ReleaseHaltLock releases a halt lock by identifier. If the current halt lock
 // does not match the identifier then it has already been released.
 func (db *DB) ReleaseHaltLock(ctx context.Context, id int64) {
